@@ -101,6 +101,8 @@ impl DeletionQuery {
         &mut self,
         conn: &rusqlite::Connection,
     ) -> std::result::Result<(), rusqlite::Error> {
+        #[cfg(discret_verif)]
+        crate::verif::fault_point("stmt_delete")?;
         for edg in &self.edges {
             edg.edge.delete(conn)?;
         }
@@ -115,6 +117,8 @@ impl DeletionQuery {
         for update in &mut self.updated_nodes {
             update.write(conn, false, &None, &None)?;
         }
+        #[cfg(discret_verif)]
+        crate::verif::fault_point("stmt_delete_mid")?;
         for log in &mut self.node_log {
             log.write(conn)?;
         }
